@@ -1,8 +1,8 @@
 """adopt2.py [Cxx ...]: move confirmed round-2 seeded changes that the check catches into /verif/seeded/Cxx-(k+2)/"""
 import glob, json, os, re, shutil, sys
 INC = os.environ.get("INC", "_incoming2")
-OFF = {"_incoming2": 2, "_incoming3": 5, "../audit": 7}[INC]
-RND = {"_incoming2": 2, "_incoming3": 3, "../audit": 4}[INC]
+OFF = {"_incoming2": 2, "_incoming3": 5, "../audit": 7, "../audit2": 10}[INC]
+RND = {"_incoming2": 2, "_incoming3": 3, "../audit": 4, "../audit2": 5}[INC]
 pids = sys.argv[1:] or sorted(os.path.basename(p) for p in glob.glob("/verif/seeded/%s/C*" % INC) if os.path.isdir(p))
 for pid in pids:
     inc = "/verif/seeded/%s/%s" % (INC, pid)
